@@ -513,10 +513,25 @@ def uf_args(args):
                 for x in sv.items:
                     sorts.append(z3.IntSort())
                     terms.append(z3.IntVal(x) if isinstance(x, int) else x)
-            else:
+            elif len(sv.parts) == 1:
                 sig.append('s')
                 sorts.append(IntSeq)
                 terms.append(sv.seq_term())
+            else:
+                # a concatenation: explicit bytes individually, chunks of symbolic length as separate sequence arguments
+                # (componentwise equality implies equality of the concatenations; the converse is not needed for proofs)
+                ps = []
+                for part in sv.parts:
+                    if isinstance(part, list):
+                        ps.append('b%d' % len(part))
+                        for x in part:
+                            sorts.append(z3.IntSort())
+                            terms.append(z3.IntVal(x) if isinstance(x, int) else x)
+                    else:
+                        ps.append('s')
+                        sorts.append(IntSeq)
+                        terms.append(part.term)
+                sig.append('[' + ','.join(ps) + ']')
         elif isinstance(a, (int, SInt, SBool, z3.ArithRef)):
             sig.append('i')
             sorts.append(z3.IntSort())
@@ -727,62 +742,7 @@ def int_from_bytes(ip, args, kwargs):
     return wrap_int(recompose(ctx, items))
 
 
-def is_byte_term(ctx, e):
-    if isinstance(e, int):
-        return 0 <= e <= 255
-    if z3.is_int_value(e):
-        return 0 <= e.as_long() <= 255
-    if e.get_id() in ctx.byte_terms:
-        return True
-    if z3.is_app_of(e, z3.Z3_OP_MOD) and z3.is_int_value(e.arg(1)) and 0 < e.arg(1).as_long() <= 256:
-        return True
-    return False
-
-
-def bytesum_digits(ctx, t):
-    """little-endian digit list [d_0, d_1, ...] if t is syntactically sum(d_i * 256^i) with byte-valued d_i"""
-    t = z3.simplify(t)
-    if z3.is_int_value(t):
-        return None
-    terms = list(t.children()) if z3.is_app_of(t, z3.Z3_OP_ADD) else [t]
-    digits = {}
-    for x in terms:
-        coef, e = 1, x
-        if z3.is_int_value(x):
-            v = x.as_long()
-            if v < 0:
-                return None
-            j = 0
-            while v:
-                if j in digits:
-                    return None
-                digits[j] = v % 256
-                v //= 256
-                j += 1
-            continue
-        if z3.is_app_of(x, z3.Z3_OP_MUL) and x.num_args() == 2 and z3.is_int_value(x.arg(0)):
-            coef, e = x.arg(0).as_long(), x.arg(1)
-        j = _pow256(coef) if coef >= 1 else None
-        if j is None or j in digits or not is_byte_term(ctx, e):
-            return None
-        digits[j] = e
-    if not digits or (len(terms) == 1 and 0 in digits and not z3.is_app_of(t, z3.Z3_OP_ADD) and len(digits) == 1
-                      and not (t.get_id() in ctx.byte_terms)):
-        # a lone byte term is its own single digit only if registered as a byte
-        if not digits:
-            return None
-    n = max(digits) + 1
-    return [digits.get(i, 0) for i in range(n)]
-
-
-def _pow256(c):
-    j = 0
-    while c > 1:
-        if c % 256:
-            return None
-        c //= 256
-        j += 1
-    return j
+from .ops import is_byte_term, bytesum_digits, _pow256
 
 
 def byte_origin(ctx, e):
